@@ -74,6 +74,15 @@ def gen_history(rng, nobj, nops):
         else: ops.append("D%d" % rng.below(n))
     for k in range(n):
         ops.append("D%d" % k)      # every object, clones and rebuilds included
+    # PartialEq: every object still equals itself after sampling, and every clone / rebuild / clone_from equals its source
+    nxt, src = nobj, {}
+    for op in list(ops):
+        if op[0] in "CB": src[nxt] = int(op[1:]); nxt += 1
+        elif op[0] == "F": src[nxt] = int(op[1:].split(":")[1]); nxt += 1
+    for k in range(n):
+        ops.append("E%d:%d" % (k, k))
+    for k, k0 in src.items():
+        ops.append("E%d:%d" % (k, k0))
     return ops
 
 
@@ -109,9 +118,9 @@ def correspond(ctx):
                 if sp.startswith(fam + ":"): break
             else:
                 continue
-            hist.append((rng.u64(), sp, 1, ["D0", "I0:0:1300", "S0:1", "C0", "I1:1:700", "I0:1:700", "D0", "D1"]))
+            hist.append((rng.u64(), sp, 1, ["D0", "E0:0", "I0:0:1300", "S0:1", "C0", "I1:1:700", "I0:1:700", "D0", "D1", "E0:0", "E1:0"]))
     for _ in range(40 if tier == "quick" else 600):
-        hist.append((rng.u64(), weighted_spec(rng), 1, ["D0", "I0:0:50", "C0", "B0", "S1:1", "S0:2", "S2:2", "I1:0:40", "I2:1:40", "D0", "D1", "D2"]))
+        hist.append((rng.u64(), weighted_spec(rng), 1, ["D0", "I0:0:50", "C0", "B0", "S1:1", "S0:2", "S2:2", "I1:0:40", "I2:1:40", "D0", "D1", "D2", "E0:0", "E1:0", "E2:0"]))
     # clone_from between two values of the SAME type with different parameters (for the weighted indices: the same number of
     # weights, different sums): the overwritten value must behave and print exactly as its source
     for _ in range(60 if tier == "quick" else 800):
@@ -122,7 +131,7 @@ def correspond(ctx):
                 break
         else:
             continue
-        hist.append((rng.u64(), a + ";" + b, 2, ["D0", "D1", "F0:1", "F1:0", "I2:0:30", "I1:0:30", "I3:1:30", "I0:1:30", "S2:2", "S1:2", "D0", "D1", "D2", "D3"]))
+        hist.append((rng.u64(), a + ";" + b, 2, ["D0", "D1", "F0:1", "F1:0", "I2:0:30", "I1:0:30", "I3:1:30", "I0:1:30", "S2:2", "S1:2", "D0", "D1", "D2", "D3", "E2:1", "E3:0", "E0:0", "E1:1"]))
     lines = []
     for seed, specs, nobj, ops in hist:
         lines.append("pure %x 0 %s %s" % (seed, specs, " ".join(ops)))                 # the history itself
@@ -178,6 +187,11 @@ def correspond(ctx):
         for k, k0 in src.items():
             if k in last and k0 in last and last[k] != last[k0]:
                 fail("object %s (a clone / rebuild of object %s) prints differently from its source: %s vs %s" % (k, k0, last[k][:160], last[k0][:160])); break
+        # PartialEq: "ne" between a value and itself / its clone / rebuild / clone_from source ("na": no PartialEq on the type)
+        for op, res in zip(ops, main):
+            if op[0] == "E" and res == "ne":
+                a, b = op[1:].split(":")
+                fail("object %s %s under PartialEq" % (a, "no longer compares equal to itself" if a == b else "does not compare equal to its source object " + b)); break
         # Debug before = after
         dbg = {}
         for op, res in zip(ops, main):
@@ -215,7 +229,7 @@ def correspond(ctx):
     return {
         "evaluations": len(hist) + len(vlines), "distinct_nontrivial": len({(h[1], tuple(h[3])) for h in hist}),
         "rule": "random histories over 1-4 distribution objects of random families/parameters (all 27 samplers and the two weighted index types over float and integer weights) and 3 seeded streams: "
-                "sample, sample_iter.take(n), clone, clone_from (incl. between two values of one type with different parameters), rebuild-from-parameters, Debug; each history is run 7 ways on the real crate (twice, with fresh "
+                "sample, sample_iter.take(n), clone, clone_from (incl. between two values of one type with different parameters), rebuild-from-parameters, Debug, PartialEq (self, clone, rebuild); each history is run 7 ways on the real crate (twice, with fresh "
                 "objects for every sample, with sample_iter expanded, projected onto each stream) and all outputs (value bits and stream position) "
                 "must agree; distinct = distinct (objects, history)",
         "samples": [lines[0][:300], outs[0][:300]],
